@@ -137,7 +137,7 @@ def _claimed_level(prop, default):
 
 
 def finish(report, tier, t0, extra_cov=None, selftest=None, out=sys.stdout,
-           write_evidence=True, evidence_dir=None, analysis_errors=()):
+           write_evidence=True, evidence_dir=None, analysis_errors=(), write_replay=True):
     """Print the verdict lines, write replay + evidence files, return exit code."""
     prop = report.prop
     known, _fixed = load_known_findings()
@@ -176,6 +176,8 @@ def finish(report, tier, t0, extra_cov=None, selftest=None, out=sys.stdout,
         safe = "".join(c if c.isalnum() else "_" for c in o.rule + "__" + o.construct)[:150]
         rp = os.path.join(replay_dir, "{}__{}.json".format(prop, safe))
         try:
+            if not write_replay:
+                raise OSError("scratch run")
             with open(rp, "w", encoding="utf-8") as fd:
                 json.dump({"property": prop, "obligation": o.as_dict(),
                            "rule_text": report.rules_applied.get(o.rule, "")}, fd,
